@@ -3,6 +3,7 @@ package props
 import (
 	"context"
 	"encoding/json"
+	"errors"
 	"fmt"
 	"math/rand/v2"
 	"runtime"
@@ -275,6 +276,91 @@ func c19Overlap(c *h.Ctx, n, rounds int) {
 		}
 	}
 	c.Count("overlap.identical-call-rounds", int64(nrounds))
+}
+
+// c19CancelledFromOutside: a caller cancels the context of a call that is
+// under way - from another goroutine, as callers do (a request handler going
+// away, a timeout). Contexts made by package context are used, not the
+// monitored ones. The call returns its result or the cancellation, and
+// whatever the library does to notice the cancellation is free of data races.
+func c19CancelledFromOutside(c *h.Ctx) {
+	var deep any = float64(1)
+	for i := 0; i < 300; i++ {
+		deep = map[string]any{"a": deep}
+	}
+	var wide []any
+	for i := 0; i < 400; i++ {
+		wide = append(wide, map[string]any{"x": float64(i)})
+	}
+	cases := []struct {
+		p   *path.Path
+		doc any
+	}{
+		{path.MustParse("$" + strings.Repeat(".a", 300)), deep},
+		{path.MustParse(`$[*] ? (@.x > 390 || @.x == 7).x`), wide},
+		{path.MustParse(`strict $[*].x ? (@ >= 0)`), wide},
+		{path.MustParse(`$.** ? (@ == 1)`), deep},
+	}
+	h.NoSharedAtomics = true
+	defer func() { h.NoSharedAtomics = false }()
+	bad := ""
+	for ci, cse := range cases {
+		want, werr := cse.p.Query(context.Background(), cse.doc)
+		if werr != nil {
+			continue
+		}
+		wfp := h.CanonList(want)
+		for i := 0; i < 120 && bad == ""; i++ {
+			ctx, cancel := context.WithCancel(context.Background())
+			var wg sync.WaitGroup
+			wg.Add(1)
+			go func(spin int) {
+				defer wg.Done()
+				for k := 0; k < spin; k++ {
+					runtime.Gosched()
+				}
+				cancel()
+			}(i % 23 * 3)
+			var got []any
+			var err error
+			switch i % 3 {
+			case 0:
+				got, err = cse.p.Query(ctx, cse.doc)
+			case 1:
+				var v any
+				v, err = cse.p.First(ctx, cse.doc)
+				if err == nil {
+					got = want[:min(1, len(want))]
+					if h.Canon(v) != h.Canon(want[0]) {
+						bad = fmt.Sprintf("case %d: First returned %s", ci, h.Canon(v))
+					}
+				}
+			default:
+				var b bool
+				b, err = cse.p.Exists(ctx, cse.doc)
+				if err == nil {
+					got = want
+					if !b {
+						bad = fmt.Sprintf("case %d: Exists returned false", ci)
+					}
+				}
+			}
+			wg.Wait()
+			cancel()
+			c.Eval(1)
+			switch {
+			case err != nil && !errors.Is(err, context.Canceled):
+				bad = fmt.Sprintf("case %d: a call whose context was cancelled from another goroutine returned %v", ci, err)
+			case err == nil && i%3 == 0 && h.CanonList(got) != wfp:
+				bad = fmt.Sprintf("case %d: a call whose context was cancelled from another goroutine returned a nil error and %d items (alone: %d)", ci, len(got), len(want))
+			}
+		}
+	}
+	if bad != "" {
+		c.Violate("concurrent-differs", h.F("kind", "cancelled-from-outside"), bad, h.Case{Kind: "cancelled-from-outside"})
+	} else {
+		c.Held("concurrent-differs")
+	}
 }
 
 // c19EditedDocuments: a call answers for the document it is given now. The
@@ -793,6 +879,7 @@ func runC19(c *h.Ctx) {
 	c19Overlap(c, cf.n, rounds)
 	c19RejectedParses(c, cf.n)
 	c19EditedDocuments(c)
+	c19CancelledFromOutside(c)
 	c.Count("overlap.operation-pairs", overlapPairs)
 	c.Count("overlap.same-path-pairs", overlapSamePath)
 	c.Count("max:goroutines", int64(cf.n))
